@@ -136,3 +136,22 @@ assumptions = (
 )
 not_covered = ("nostd::shared_ptr (wraps std::shared_ptr in a placement buffer)", "nostd::variant (absl)", "nostd::function_ref", "std::hash<string_view>",
                "unique_ptr<T[]>, converting constructors")
+
+DRIVER = ("c20_native", ["c20_native.cc"])
+
+
+def refute_search(mod, proof, violations, ix, workdir, seed):
+    """directed native search: nostd::unique_ptr / nostd::string_view in lock step with their std:: counterparts"""
+    import os, re as _re, subprocess
+    binpath = R.build_native(DRIVER[0], [os.path.join(R.core.HERE, "replay", s) for s in DRIVER[1]])
+    full = subprocess.run([binpath, "search"], stdout=subprocess.PIPE, stderr=subprocess.STDOUT, text=True, timeout=300).stdout
+    m = _re.findall(r"^FOUND (.*)$", full, _re.M)
+    if not m:
+        return None
+    args = m[-1].split()
+    r = R.native_check(DRIVER[0], DRIVER[1], args)
+    r["input"] = {"driver_args": args, "meaning": "uptr | sv: scripted lock-step comparison with std::unique_ptr / std::string_view", "found_by": "directed native search (refute mode)"}
+    return r if r["reproduced"] else None
+
+
+refuters = {p.name: refute_search for p in proofs}
